@@ -506,4 +506,114 @@ def fam_broker(seed, i):
     return sc
 
 
-FAMILIES = {"core": fam_core, "awaiters": fam_awaiters, "life": fam_life, "fail": fam_fail, "restart": fam_restart, "timeout": fam_timeout, "timers": fam_timers, "tree": fam_tree, "registry": fam_registry, "stream": fam_stream, "broker": fam_broker}
+def fam_mix(seed, i):
+    """Every property: one main actor with a random combination of ALL configuration axes (mailbox kind, restart
+    strategy, handler timeout, stream, owning spawn, service type), started() arming timers / subscribing / registering
+    children, clients of every handle kind running the union of the operation alphabets, handlers running the union of
+    the effect alphabets, optional fault.  Catches what only shows when two features meet."""
+    rng = random.Random(f"mix-{seed}-{i}")
+    sc = base("mix", seed, i, rng, horizon=rng.choice([8, 12, 16]))
+    sc["idle_only"] = rng.random() < 0.5
+    stream = rng.random() < 0.25
+    tn = [0]
+    topics = ["1", "2"][:rng.choice([1, 2])]
+
+    def timer_eff():
+        tn[0] += 1
+        kind = rng.choice(["interval", "interval_with", "delayed_send", "delayed_exec"])
+        return eff(kind, rng.randint(1, 3), f"t{tn[0]}")
+
+    fault = rng.choice(["none", "none", "none", "panic", "cancel", "start_err", "stopped_panic"])
+    s0 = [Y] * rng.choice([0, 1])
+    if rng.random() < 0.35:
+        s0 += [timer_eff() for _ in range(rng.choice([1, 1, 2]))]
+    if rng.random() < 0.3:
+        s0.append(eff("subscribe", int(rng.choice(topics))))
+    nk = rng.choice([0, 0, 0, 1, 2, 3])
+    kids = [f"a{k+2}" for k in range(nk)]
+    bucket = {x: rng.choice(["add_child", "register_bc", "register_bc2"]) for x in kids}
+    s0 += [eff(bucket[x], 0, f"r_{x}") for x in kids]
+    if fault == "start_err":
+        s0 = s0 + [eff("err")]
+    pscr = [Y] * rng.choice([0, 1])
+    if fault == "stopped_panic":
+        pscr = pscr + [eff("panic")]
+    elif rng.random() < 0.15:
+        pscr = pscr + [eff("sleep", rng.randint(1, 4))]
+    owning = rng.random() < 0.35
+    if stream:
+        shape = rng.choice(["finite", "neverending", "neverready", "bursts"])
+        items0 = {"finite": rng.randint(1, 3), "neverending": rng.randint(0, 2), "neverready": 0, "bursts": rng.randint(0, 2)}[shape]
+        cfg = {"cap": rng.choice([-1, -1, 0, 1, 2]), "strat": "none", "stream": True, "items0": items0, "ended0": shape == "finite",
+               "iscr": [Y] * rng.choice([0, 1]), "fscr": [Y] * rng.choice([0, 1]), "pscr": pscr, "sscr": [s0], "owning": owning}
+        entry = "builder"
+    else:
+        t = rng.choice([-1, -1, -1, 2, 3, 4, 0])
+        strat = rng.choice(["restart", "restart", "recreate", "none"])
+        sscr = [s0]
+        if strat != "none" and rng.random() < 0.3:
+            sscr.append([Y] * rng.choice([0, 1]) + ([eff("err")] if rng.random() < 0.3 else []))
+        cfg = {"cap": rng.choice([-1, -1, 0, 1, 2]), "strat": strat, "tmo": t, "failto": t >= 0 and rng.random() < 0.3,
+               "pscr": pscr, "sscr": sscr, "owning": owning, "ty": rng.choice(["0", "0", "1"])}
+        entry = rng.choice(["builder", "builder", "plain"])
+    if fault == "cancel":
+        sc["cancels"] = 1
+        sc["cancel_pct"] = rng.choice([4, 10])
+    ncl = rng.randint(1, 4)
+    names = [f"c{k+1}" for k in range(ncl)]
+    kinds = {c: rng.choice(ALLKINDS) for c in names}
+    if owning:
+        kinds[rng.choice(names)] = "owning"
+    main, handles = setup_main(rng, cfg, kinds, rng.random() < 0.4, entry=entry)
+    # children: spawned after the parent, handed to it before it is first polled (its started() registers them)
+    ix = 1
+    for x in kids:
+        kc = {"cap": rng.choice([-1, 1, 2]), "pscr": [Y] * rng.choice([0, 1]), "sscr": [[Y] * rng.choice([0, 1])]}
+        ins = [{"op": "spawn", "a": x, "nh": f"r_{x}", "cfg": kc, "entry": "builder"}]
+        if rng.random() < 0.5:
+            c = rng.choice(names)
+            ins.append({"op": "clone", "h": f"r_{x}", "nh": f"e_{x}", "to": c})
+            handles.setdefault(c, {})[f"e_{x}"] = "addr"
+        ins.append({"op": "give", "h": f"r_{x}", "to": "a1"})
+        main[ix:ix] = ins
+        ix += len(ins)
+    sc["clients"]["main"] = main
+    w = {"send": 5, "call": 5, "ping": 1, "yield": 3, "sleep": 2, "clone": 1, "drop": 2, "stop": 1, "halt": 0.4, "try_stop": 0.5, "try_halt": 0.4,
+         "await": 0.8, "await_ref": 0.7, "stopped": 1, "running": 0.7, "downgrade": 1, "upgrade": 1.5, "sender": 0.4, "caller": 0.4,
+         "weak_sender": 0.4, "weak_caller": 0.4, "to_addr": 0.5, "detach": 0.3, "join": 1, "consume": 0.4, "consume_sync": 0.3,
+         "restart": 1.2, "publish": 1.5, "try_publish": 0.4}
+    if stream:
+        w["feed"] = 3
+        w["end_stream"] = 0.7
+    elif cfg["ty"] != "0":
+        w.update({"from_registry": 1, "register": 0.7, "replace": 0.5, "unregister": 0.7, "try_from_registry": 1, "already_running": 1})
+    cnt = [0]
+    wn = [0]
+    for c in names:
+        p = Prog(rng, c, handles.get(c, {}), w, None, cnt)
+        p.types = ["1"]
+        p.topics = topics
+
+        def scripts(p=p):
+            r = rng.random()
+            if r < 0.07:
+                wn[0] += 1
+                kind = rng.choice(["ctx_weak_address", "ctx_weak_sender", "ctx_weak_caller"])
+                name = f"w{wn[0]}"
+                p.claimable.append((name, {"ctx_weak_address": "waddr", "ctx_weak_sender": "wsender", "ctx_weak_caller": "wcaller"}[kind]))
+                return [eff(kind, 0, name)]
+            opts = [[], [], [Y], [Y, Y], [eff("ctx_stop")], [eff("ctx_restart")], [timer_eff()], [eff("sleep", rng.randint(1, 5))],
+                    [eff("publish", int(rng.choice(topics)))], [eff("subscribe", int(rng.choice(topics)))], [Y, eff("sleep", 2)]]
+            if kids:
+                opts += [[eff("broadcast_unit")], [eff("broadcast_bc")], [eff("broadcast_bc2"), Y]]
+            if fault == "panic":
+                opts += [[eff("panic")], [Y, eff("panic")]]
+            return rng.choice(opts)
+
+        p.scripts = scripts
+        p.w = dict(w, claim=1)
+        sc["clients"][c] = p.run(rng.randint(2, 9))
+    return sc
+
+
+FAMILIES = {"mix": fam_mix, "core": fam_core, "awaiters": fam_awaiters, "life": fam_life, "fail": fam_fail, "restart": fam_restart, "timeout": fam_timeout, "timers": fam_timers, "tree": fam_tree, "registry": fam_registry, "stream": fam_stream, "broker": fam_broker}
